@@ -14,6 +14,9 @@ def cases(tier):
         for who in ('turn', 'other'):
             cs.append((play.case_step, f'H1 play with {t} cards on the table, seat {"on" if who == "turn" else "not on"} turn',
                        dict(props=PROPS, t=t, who=who)))
+    for who in ('turn', 'other'):
+        cs.append((play.case_step, f'H1 play is over (all 52 cards played), seat {"on" if who == "turn" else "not on"} turn',
+                   dict(props=PROPS, t=0, who=who, over=True)))
     from harness import C11
     cs += C11.observer_cases(PROPS, tier)
     n = 6 if tier == 'thorough' else 4
@@ -24,7 +27,7 @@ def cases(tier):
 
 META = dict(
     level='model_checking',
-    bounds=lambda tier: {'H1': 'any trick 1..13, 0..3 cards on the table, any contract (35 bids x 4 declarers), any disjoint hands (52 Booleans per set), any card and seat offered',
+    bounds=lambda tier: {'H1': 'any trick 1..13, 0..3 cards on the table, and the state after the 52nd card (every hand empty), any contract (35 bids x 4 declarers), any disjoint hands (52 Booleans per set), any card and seat offered',
                          'H2': f'first {6 if tier == "thorough" else 4} plays from the real constructor, symbolic deal, per declarer',
                          'replay': 'counterexamples to induction are searched at trick 1 first and turned into (deal, plays); deeper-only ones are reported inconclusive'},
     stubs=['logger calls skipped'],
